@@ -74,6 +74,10 @@ func c15Resolve(env []string, key string, lastWins, caseSensitive bool) (string,
 func c15FlagsOK(v string) bool {
 	mod := ""
 	for _, f := range strings.Fields(v) {
+		// the go command accepts a flag with one or two dashes
+		if strings.HasPrefix(f, "--") {
+			f = f[1:]
+		}
 		if strings.HasPrefix(f, "-mod=") {
 			mod = f
 		}
@@ -177,7 +181,7 @@ func c15Alphabet() []string {
 	hostile := map[string][]string{
 		"CGO_ENABLED": {"1", ""},
 		"GOPROXY":     {"https://evil.example", ""},
-		"GOFLAGS":     {"-mod=mod -toolexec=/x", "-mod=vendor"},
+		"GOFLAGS":     {"-mod=mod -toolexec=/x", "-mod=vendor", "--mod=mod"},
 		"GOWORK":      {"/tmp/evil.work", ""},
 		"GOTOOLCHAIN": {"auto", "go1.99+auto"},
 		"GONOSUMDB":   {"none"},
